@@ -262,6 +262,12 @@ def run(ctx):
             bare = [c for c in calls if c.via_name == "feed_event" and not any(x in describe_operand(rb, c.args[1]) for x in ("StartBody", "EndRecord"))]
             r.check(wrapped and not bare, "read_record_body/%s/framed-as-body" % m, where(rb), "a %s in the body position is fed between StartBody and EndRecord" % m,
                     "a %s in the body position is fed to the recogniser bare: a record whose body is delegated to such a value can be written but not read back" % m)
+        # extension values (BigInt / BigUint) are scalars too: `#[form(body)] n: BigInt` is written as an extension where the body would start
+        exts = [c for c in rb.calls if c.name == "read_ext" and any(d.startswith("is_ext(") and l == "true" for d, l, _ in dom_guards(rb, c.block))]
+        wrapped_ext = [c for c in rb.calls if (c.defpath or "") in wrappers and any(rb.dominates(e.block, c.block) for e in exts)]
+        kinds_ext = {("BigInt" if "BigInt" in describe_operand(rb, c.args[-1]) or "Left" in describe_operand(rb, c.args[-1]) else "BigUint") for c in wrapped_ext}
+        r.check(bool(exts) and len(wrapped_ext) >= 2, "read_record_body/Ext/framed-as-body", where(rb), "an extension value (big integer) in the body position is fed between StartBody and EndRecord (%d framed sites)" % len(wrapped_ext),
+                "read_record_body has no case for the extension markers: a record whose body is delegated to a BigInt / BigUint (`#[form(body)]`) is written as an extension where the body starts and is rejected with InvalidMarker when read back")
 
     with ctx.rule("C16.R3", "T5", "big integers: extension codes, sign byte and payload length agree between writer and reader", floor=9) as r:
         bi = mp.const("BIG_INT_EXT")
